@@ -457,5 +457,5 @@ def run_case(p):
         if k not in seen:
             seen.add(k)
             uniq.append(v)
-    return {"violations": uniq, "outcome": "ok" if not uniq else "viol:" + ",".join(sorted({v['oracle'] for v in uniq})), "nontrivial": True, "steps": steps,
+    return {"violations": uniq, "outcome": "ok" if not uniq else "viol:" + ",".join(sorted({v['oracle'] for v in uniq})), "nontrivial": True, "steps": steps, "units": len(trees),
             "stats": {"programs": len(trees), "programs_skipped": skipped, "files_type_checked": sum(len(t) for t in trees.values())}}
